@@ -129,6 +129,12 @@ def inputs_for(tier: str, rng) -> list[tuple[bytes, int]]:
             if url[n:n + 1] == b"0":
                 data.append(bytes(9) + bytes([n]) + url)
                 data.append(b"\x01\x02\x03\x04\x05\x06\x07\x08\x0e\x0f" + bytes([n]) + url + b" tail")
+    # percent-escapes inside a bracketed host, the userinfo, the port (normalisation rewrites them before the URL is parsed)
+    for host in (b"[1::ffff]", b"[::1]", b"[2001:db8::10]", b"[v1.a]", b"[::ffff:1.2.3.4]", b"1.2.3.4", b"a.example.com", b"[fe80::1%25eth0]"):
+        for esc in (b"%41", b"%3A", b"%3a", b"%5D", b"%5B", b"%25", b"%30", b"%2E", b"%2f", b"%40", b"%7E", b"%00", b"%g1", b"%"):
+            for pos in sorted({1, len(host) // 2, len(host) - 1, len(host)}):
+                h = host[:pos] + esc + host[pos:]
+                data += [b"http://" + h + b"/", b"see ('https://u:p@" + h + b":80/x') now", b"ftp://" + h + b":" + esc + b"/"]
     # repository inputs, mutations, token soup, binary garbage
     lits = drivers.repo_literals()
     data += lits
@@ -149,6 +155,11 @@ def inputs_for(tier: str, rng) -> list[tuple[bytes, int]]:
     for i, d in enumerate(data):
         k = 10 if i % 3 else DEPTHS[(i // 3) % len(DEPTHS)]
         out.append((d[:4096], k))
+    # undecoded contexts nest without regard to the depth limit (a call inside a call inside a call ...): the only
+    # inputs longer than 4 KiB; the nesting of the result tree is the nesting of the text
+    for opener in (b"createobject(", b"CreateObject('", b"cmd /c (", b"unescape('", b"("):
+        for n in (300, 1200):
+            out.append((opener * n + b")" * n, 10))
     return out
 
 
@@ -336,8 +347,9 @@ def confirm_hang(data: bytes, k: int, history: bool = False) -> bool:
 def run(prop: str, tier: str) -> int:
     use_repo()
     res = Result(prop, tier, "model_checking")
-    res.assumptions += ["inputs are at most 4 KiB; a session counts as hung when it does not finish within 20 s and, re-run alone in a fresh process, not within 60 s",
-                        "nesting deep enough to exhaust Python's recursion limit (about 1000 layers, ~2 MB of input) is outside the explored bound",
+    res.assumptions += ["inputs are at most 4 KiB (except ten deep-nesting inputs of up to 17 KB); a session counts as hung when it does not finish within 20 s and, re-run alone in a fresh process, not within 60 s",
+                        "decoding layers deep enough to exhaust Python's recursion limit are not reachable (the depth limit bounds them); nesting of "
+                        "undecoded contexts is explored up to 1200 levels (known finding K09)",
                         "4 of 5 sessions use the analyser-only registry (no keyword lists), 1 of 5 the full default registry"]
     engine.model_check(res, ["q"] if tier == "quick" else ["q", "t4", "t2"])
     engine.oob_demo(res)
@@ -375,7 +387,8 @@ def run(prop: str, tier: str) -> int:
             continue
         kind, stage = bad.split(":")[0], bad.split(":")[1] if ":" in bad else "?"
         res.violation(f"session is not a behaviour of Session.tla: event {bad!r} after {ev[:-1]} for input {data[:200]!r} (k={k})",
-                      {"clause": kind, "stage": stage, "exception": bad.split(":")[-1]},
+                      {"clause": kind, "stage": stage, "exception": bad.split(":")[-1],
+                       "nested_createobject_calls_over_900": data.lower().count(b"createobject(") > 900},
                       {"kind": "session", "input_hex": data.hex(), "k": k, "events": ev})
     res.coverage["traces_validated_against_impl"] = n
     res.coverage["evaluations"] = n
